@@ -30,7 +30,9 @@ RULE = (
     "dependency closing a cross-rank cycle (the payload is made to depend on "
     "a receive of its own rank that transitively depends on this message; if "
     "none exists a return message forwarding the payload is added first); "
-    "plus sampled pairs: two single faults on different messages, both ends "
+    "plus sampled pairs: two single faults on different messages, the send "
+    "of a message redirected to a nonexistent rank and its receive dropped, "
+    "both ends "
     "retagged consistently (valid again), tags of two messages of one pair "
     "swapped on the sending side (valid again iff shapes agree).  A model "
     "(pvf/distsim.classify: reflective walk of the graphs) decides whether "
@@ -49,7 +51,9 @@ RULE = (
     "table fault (one send entry duplicated, one send entry removed) at "
     "every send entry of every part of every rank; "
     "verify_distributed_partition must raise a documented diagnostic on "
-    "some rank.  non-trivial = the faulted message has a dependent or a "
+    "some rank; five hand-built pairs of partitions whose parts wait for "
+    "each other across ranks must raise PartitionInducedCycleError.  "
+    "non-trivial = the faulted message has a dependent or a "
     "prerequisite message; distinct by (program, fault list)")
 ASSUMPTIONS = [
     "each rank's graph is deduplicated first (see C08)",
@@ -347,6 +351,13 @@ def fault_pairs(case, singles: list[dict], rng: random.Random, k: int
         ft = fresh_tag(case, 7)
         pairs.append([{"kind": "retag-send", **key, "to": ft},
                       {"kind": "retag-recv", **key, "to": ft}])
+    # both ends of ONE message faulted: the send goes to a rank that does
+    # not exist and the receive is dropped (no rank sees both halves)
+    n = case["nranks"]
+    for m in rng.sample(ms, min(len(ms), 2)):
+        key = {"src": m["src"], "dst": m["dst"], "tag": m["tag"]}
+        pairs.append([{"kind": "redirect-send", **key, "to_rank": n},
+                      {"kind": "drop-recv", **key}])
     # tags of two messages of one pair swapped on the sending side
     same = [(a, b) for i, a in enumerate(ms) for b in ms[i + 1:]
             if (a["src"], a["dst"]) == (b["src"], b["dst"])]
@@ -606,6 +617,68 @@ def partition_faults(base, res) -> list[tuple[Failure, dict]]:
 # }}}
 
 
+def cyclic_partitions(res) -> list[tuple[Failure, dict]]:
+    """hand-built partitions that wait on each other: on each of two ranks
+    one part receives from the other rank and sends to it once it is done;
+    rank r has lead[r] empty parts in front, so the cycle runs between
+    equally or differently numbered parts.  verify_distributed_partition
+    must raise PartitionInducedCycleError (executing them deadlocks)."""
+    import numpy as np
+    import pytato as pt
+    from pytato.distributed.nodes import DistributedSend
+    from pytato.distributed.partition import (
+        DistributedGraphPart,
+        DistributedGraphPartition,
+    )
+    distsim.install()
+    fails = []
+    for lead in ((0, 0), (1, 0), (0, 1), (1, 1), (2, 0)):
+        partitions = []
+        for r in (0, 1):
+            other = 1 - r
+            parts = {}
+            for k in range(lead[r]):
+                parts[k] = DistributedGraphPart(
+                    pid=k, needed_pids=frozenset({k - 1} if k else ()),
+                    user_input_names=frozenset(),
+                    partition_input_names=frozenset(),
+                    output_names=frozenset(), name_to_recv_node={},
+                    name_to_send_nodes={})
+            k = lead[r]
+            recv = pt.make_distributed_recv(other, 10 + other, (2,), np.float64)
+            out = pt.make_placeholder("rx", (2,), np.float64) + 1
+            parts[k] = DistributedGraphPart(
+                pid=k, needed_pids=frozenset({k - 1} if k else ()),
+                user_input_names=frozenset(),
+                partition_input_names=frozenset(),
+                output_names=frozenset({"out"}),
+                name_to_recv_node={"rx": recv},
+                name_to_send_nodes={"out": [DistributedSend(
+                    data=out, dest_rank=other, comm_tag=10 + r)]})
+            partitions.append(DistributedGraphPartition(
+                parts=parts, name_to_output={"out": out},
+                overall_output_names=["out"]))
+        with warnings.catch_warnings():
+            warnings.simplefilter("ignore")
+            try:
+                sim = distsim.verify_all(partitions)
+            except HarnessError:
+                raise
+            except Exception as e:  # noqa: BLE001
+                raise HarnessError(f"cyclic partition harness: {e}") from e
+        res.evaluations += 1
+        res.count("cyclic_partitions")
+        names = [type(e).__name__ for e in sim.excs if e is not None]
+        if "PartitionInducedCycleError" not in names:
+            fails.append((Failure(
+                "cyclic-partition-verified",
+                f"two ranks whose parts {lead[0]} / {lead[1]} wait for each "
+                f"other: verify_distributed_partition raised "
+                f"{names or 'nothing'}", f"lead={lead}"),
+                {"cyclic_partition": list(lead)}))
+    return fails
+
+
 def run_shard(shard: int, nshards: int, seed: int, tier: str) -> ShardResult:
     pl = plan(tier)
     res = ShardResult()
@@ -657,6 +730,9 @@ def run_shard(shard: int, nshards: int, seed: int, tier: str) -> ShardResult:
 
     hyp_run(distgen.cases(distgen.DistCfg(min_ranks=2)), body, seed,
             pl["examples"])
+    if shard == 0:
+        for f, c in cyclic_partitions(res):
+            res.fail(f, c)
     res.extra["exhaustive"] = True   # in the single-fault dimension
     res.extra["exhaustive_scope"] = (
         "every single fault of the listed kinds at every message of every "
@@ -665,6 +741,9 @@ def run_shard(shard: int, nshards: int, seed: int, tier: str) -> ShardResult:
 
 
 def replay(c10case) -> Failure | None:
+    if "cyclic_partition" in c10case:
+        r = cyclic_partitions(ShardResult())
+        return r[0][0] if r else None
     if "partition_fault" in c10case:
         res = ShardResult()
         want = c10case["partition_fault"]
